@@ -113,7 +113,10 @@ func Send[T any](c *Chan[T], v T) {
 		panic("send on closed channel")
 	}
 	c.edge()
-	if len(c.recvq) > 0 {
+	// A receiver registers itself before it has looked at the channel, so a registered receiver does
+	// not mean the buffer is empty: hand the value over directly only if nothing is buffered ahead of
+	// it (FIFO); otherwise it goes into the buffer and the receiver takes the oldest value when it runs.
+	if len(c.buf) == 0 && len(c.recvq) > 0 {
 		r := c.recvq[0]
 		c.recvq = c.recvq[1:]
 		r.v, r.ok, r.done = v, true, true
@@ -224,10 +227,8 @@ func Close[T any](c *Chan[T]) {
 	}
 	c.core.closed = true
 	c.edge()
-	for _, r := range c.recvq {
-		r.done, r.ok = true, false
-	}
-	c.recvq = nil
+	// registered receivers are woken by their predicate (closed => ready) and then drain what is still
+	// buffered before they see the zero value: nothing is completed on their behalf here
 	c.syncCore()
 }
 
@@ -236,7 +237,7 @@ func Close[T any](c *Chan[T]) {
 //go:norace
 func TrySend[T any](c *Chan[T], v T) bool {
 	defer c.syncCore()
-	if len(c.recvq) > 0 {
+	if len(c.buf) == 0 && len(c.recvq) > 0 {
 		r := c.recvq[0]
 		c.recvq = c.recvq[1:]
 		r.v, r.ok, r.done = v, true, true
@@ -339,7 +340,7 @@ func SendCase[T any](c *Chan[T], v T) SelCase {
 				panic("send on closed channel")
 			}
 			c.edge()
-			if len(c.recvq) > 0 {
+			if len(c.buf) == 0 && len(c.recvq) > 0 {
 				r := c.recvq[0]
 				c.recvq = c.recvq[1:]
 				r.v, r.ok, r.done = v, true, true
